@@ -257,7 +257,9 @@ func TestC09_RFC6979(t *testing.T) { rapid.Check(t, propRFC6979) }
 // 32-bit ones cost 2^32 trials).  The deterministic signature must equal the
 // reference RFC 6979 signature there too: code that treats a "short" nonce
 // specially (skips it, pads it, takes another path) breaks exactness only on
-// these inputs.  The hedged mode must also produce a valid signature.
+// these inputs.  The corpus also holds nonces of other rare shapes (64-bit
+// words that share no set bit or cover all bits; cmd/structsearch -mode
+// rfc6979 -cheap).
 func TestC09_ShortNonceCorpus(t *testing.T) {
 	raw, err := os.ReadFile(filepath.Join(os.Getenv("VERIF_ROOT"), "harness", "c09", "testdata", "short_nonces.txt"))
 	if err != nil {
@@ -269,7 +271,11 @@ func TestC09_ShortNonceCorpus(t *testing.T) {
 	n := 0
 	for _, line := range strings.Split(string(raw), "\n") {
 		f := strings.Fields(line)
-		if len(f) != 4 || strings.HasPrefix(line, "#") {
+		if len(f) == 5 && f[0] == "rfc6979" { // cmd/structsearch line: the nonce has a rare shape other than leading zeros
+			f = f[1:]
+		} else if len(f) == 4 && !strings.HasPrefix(line, "#") {
+			f[0] = "lz" + f[0]
+		} else {
 			continue
 		}
 		dB, _ := hex.DecodeString(f[1])
@@ -288,12 +294,12 @@ func TestC09_ShortNonceCorpus(t *testing.T) {
 			t.Fatalf("SignRaw(RFC6979) failed: %v", err)
 		}
 		if lib.ScInt(r).Cmp(wr) != 0 || lib.ScInt(s).Cmp(ws) != 0 || int(v) != wid {
-			t.Fatalf("RFC 6979 mismatch where the nonce has %s leading zero bits (k=%s): d=%x digest=%x: got (%x,%x,%d) want (%x,%x,%d)",
+			t.Fatalf("RFC 6979 mismatch where the nonce has shape %s (k=%s): d=%x digest=%x: got (%x,%x,%d) want (%x,%x,%d)",
 				f[0], f[3], d, digest, lib.ScInt(r), lib.ScInt(s), v, wr, ws, wid)
 		}
 		n++
-		stat.Case("short-nonce-corpus", []string{"leading-zero-bits:" + f[0]}, true, []byte(line), func() any {
-			return map[string]any{"leading_zero_bits": f[0], "d": f[1], "digest": f[2], "k": f[3]}
+		stat.Case("short-nonce-corpus", []string{"nonce-shape:" + f[0]}, true, []byte(line), func() any {
+			return map[string]any{"nonce_shape": f[0], "d": f[1], "digest": f[2], "k": f[3]}
 		})
 	}
 	if n < 8 {
